@@ -40,6 +40,10 @@ def load_ref(name, path):
 
 def main():
     spec = json.load(open(sys.argv[1]))
+    if spec.get('stderr_path'):
+        # sanitizer runtimes write some reports (UBSan in a combined ASan+UBSan build) to fd 2 only
+        fd = os.open('%s.%d' % (spec['stderr_path'], os.getpid()), os.O_WRONLY | os.O_CREAT | os.O_APPEND, 0o644)
+        os.dup2(fd, 2)
     sys.path.insert(0, spec['builddir'])
     sys.setrecursionlimit(spec.get('recursionlimit', 400))
     cmp = spec.get('compare', {})
